@@ -575,11 +575,16 @@ func replayJob(cs map[string]any) (h.Job, bool) {
 		seed, _ := cs["seed"].(float64)
 		fa, _ := cs["fault_at"].(float64)
 		return parseJobOf(unhex(str("input_hex")), int64(seed), int(fa)), true
+	case "parsehist":
+		return h.Job{Kind: "parsehist", Payload: str("payload")}, true
 	case "validate":
 		return valJob(str("query"), str("schema"), str("current")), true
 	case "valhist":
 		return h.Job{Kind: "valhist", Payload: str("payload")}, true
 	case "analysis":
+		if ch := str("chain"); ch != "" {
+			return h.Job{Kind: "analysis", Payload: ch}, true
+		}
 		return h.Job{Kind: "analysis", Payload: hex.EncodeToString([]byte(str("query")))}, true
 	case "purity":
 		return h.Job{Kind: "purity", Payload: hex.EncodeToString([]byte(str("query"))) + "\t" + str("data") + "\t20"}, true
